@@ -2,6 +2,7 @@ package main
 
 import (
 	"math/rand"
+	"reflect"
 	"strings"
 )
 
@@ -625,6 +626,9 @@ func runWire(c Case, tr *Tracer) {
 					}
 				}
 			}
+			// the caller goes on using the PDU it was given: it adds to its containers and overwrites its byte fields.
+			// Nothing of that may show in a PDU decoded later.
+			callerMutates(fresh)
 		}
 		tr.emit(e)
 	case "relay":
@@ -658,4 +662,54 @@ func runWire(c Case, tr *Tracer) {
 		}
 		tr.emit(e)
 	}
+}
+
+// callerMutates changes a decoded PDU the way its owner may: entries added to map-typed members (option containers),
+// octets of byte members overwritten, list members changed in place
+func callerMutates(obj interface{}) {
+	defer func() { _ = recover() }()
+	var walk func(v reflect.Value, depth int)
+	walk = func(v reflect.Value, depth int) {
+		if depth > 3 {
+			return
+		}
+		switch v.Kind() {
+		case reflect.Ptr, reflect.Interface:
+			if !v.IsNil() {
+				walk(v.Elem(), depth+1)
+			}
+		case reflect.Struct:
+			for i := 0; i < v.NumField(); i++ {
+				if v.Type().Field(i).PkgPath == "" {
+					walk(v.Field(i), depth+1)
+				}
+			}
+		case reflect.Map:
+			if !v.IsNil() {
+				k := reflect.New(v.Type().Key()).Elem()
+				switch k.Kind() {
+				case reflect.Uint8, reflect.Uint16, reflect.Uint32, reflect.Uint64, reflect.Uint:
+					k.SetUint(0x77)
+				case reflect.Int, reflect.Int16, reflect.Int32, reflect.Int64:
+					k.SetInt(0x77)
+				case reflect.String:
+					k.SetString("caller")
+				default:
+					return
+				}
+				v.SetMapIndex(k, reflect.New(v.Type().Elem()).Elem())
+			}
+		case reflect.Slice:
+			if v.Type().Elem().Kind() == reflect.Uint8 {
+				for i := 0; i < v.Len(); i++ {
+					v.Index(i).SetUint(0xEE)
+				}
+			} else if v.Type().Elem().Kind() == reflect.String {
+				for i := 0; i < v.Len(); i++ {
+					v.Index(i).SetString("caller")
+				}
+			}
+		}
+	}
+	walk(reflect.ValueOf(obj), 0)
 }
